@@ -34,7 +34,7 @@ func tagSSIParser(doc *Parser, start *Token, arguments *Parser) (INodeTag, *Erro
 
 		if arguments.Match(TokenIdentifier, "parsed") != nil {
 			// parsed
-			temporaryTpl, err := doc.template.set.FromFile(doc.template.set.resolveFilename(doc.template, fileToken.Val))
+			temporaryTpl, err := doc.template.set.fromFileNested(doc.template.set.resolveFilename(doc.template, fileToken.Val), doc.template)
 			if err != nil {
 				return nil, err.(*Error).updateFromTokenIfNeeded(doc.template, fileToken)
 			}
